@@ -16,7 +16,7 @@ META = {
 }
 
 ALLOWED_AXIOMS = ()
-MODEL_VOS = ["Base/Conv.vo", "IO/Circuit.vo", "IO/Aiger.vo", "IO/AigerParse.vo"]
+MODEL_VOS = ["Base/Conv.vo", "IO/Circuit.vo", "IO/Aiger.vo", "IO/AigerParse.vo", "IO/DimacsParse.vo"]
 
 
 def build(ctx):
@@ -96,11 +96,11 @@ def handle_bad(ctx, binp, drv, cases, bad, profile):
         if typ.startswith("circ") or typ == "dangling":
             small, smsg = shrink_circ(ctx, binp, drv, header, ops[0], kind)
             ops, msg = [small], (smsg or msg)
-        elif typ == "aigmut":
+        elif typ in ("aigmut", "cnfmut"):
             # replay only the offending input (the driver quotes it)
             m = re.search(r"input=(\S+)", msg)
             if m:
-                ops = [f"A {ops[0].split()[1]} {m.group(1)}"]
+                ops = [f"{'A' if typ == 'aigmut' else 'N'} {ops[0].split()[1]} {m.group(1)}"]
         elif typ == "aigwf":
             pass  # the aag / aig pair stays together
         elif typ == "batch":
@@ -195,7 +195,7 @@ def run(ctx):
                         # non-trivial: some gate has at least two literals
                         if any(len(g.split()) >= 3 for g in o.split("|")[1].split(";")):
                             distinct.add(hash(o))
-                    elif o[0] in "PQVAD":
+                    elif o[0] in "PQVADNM":
                         distinct.add(hash(o))
             if s == 0:
                 k = len(cases)
